@@ -22,7 +22,7 @@ LFalse == [k |-> "L", t |-> "bool", n |-> 0, v |-> "False"]
 LList == [k |-> "L", t |-> "list", n |-> 0, v |-> "[]"]
 Empty == Dict(<<>>)
 Absent == [k |-> "A"]
-Val(t, n, c, h) == [d |-> [t |-> t, n |-> n], c |-> c, h |-> h]
+Val(t, n, c, h) == [d |-> [t |-> t, n |-> n], c |-> c, h |-> h, sub |-> ""]   \* sub: shape hint for the harness
 
 (***************************************************************************)
 (* Specifications (what the user writes).                                  *)
@@ -62,6 +62,7 @@ ContainsFrom(cur, p, i) ==
 Contains(c, p) == ContainsFrom(c, p, 1)
 
 \* isinstance(data, cls)
+\* ("ucls": a user class that happens to be callable - still a class, used for an isinstance test)
 IsInst(d, c) == c = "object" \/ c = d.t \/ (d.t = "bool" /\ c = "int")
 
 \* the callables of the harness (lenaverif/sellib.py FUNCS)
@@ -70,8 +71,9 @@ FnEval(f, v) ==
   CASE f = "yes" -> "T"
     [] f = "no" -> "F"
     [] f = "boom" -> "E"                                                   \* always raises
-    [] f = "pos" -> IF v.d.t \in {"int", "bool"} THEN B(v.d.n > 0) ELSE "E"   \* data > 0 (TypeError for str, None, ())
-    [] f = "len" -> IF v.d.t \in {"str", "tuple"} THEN B(v.d.n > 0) ELSE "E" \* len(data), not a bool
+    [] f \in {"pos", "objpos"} -> IF v.d.t \in {"int", "bool"} THEN B(v.d.n > 0) ELSE "E"   \* data > 0 (TypeError for str, None, (), lists)
+                                                                          \* "objpos": the same as an object with __call__
+    [] f = "len" -> IF v.d.t \in {"str", "tuple", "list"} THEN B(v.d.n > 0) ELSE "E" \* len(data), not a bool
     [] f = "hasctx" -> B(v.c # Empty)                                      \* bool(get_context(v))
     [] f = "isnone" -> B(v.d.t = "none")                                   \* data is None
     [] f = "eq0" -> B(v.d.t \in {"int", "bool"} /\ v.d.n = 0)               \* data == 0
